@@ -406,3 +406,85 @@ def own_exprs(st):
     if isinstance(st, (ast.FunctionDef, ast.AsyncFunctionDef, ast.ClassDef)):
         return []
     return [st]
+
+
+def _targets(t, out):
+    if isinstance(t, ast.Name):
+        out.append(t.id)
+    elif isinstance(t, (ast.Tuple, ast.List)):
+        for e in t.elts:
+            _targets(e.value if isinstance(e, ast.Starred) else e, out)
+
+
+def node_defs(cfg, n):
+    """local names (re)bound by CFG node n -> 'strong' (plain rebinding) or 'weak' (augmented / loop / partial)"""
+    st = cfg.stmt[n]
+    kind = cfg.kind[n]
+    out = {}
+    if st is None:
+        return out
+    if kind == "stmt":
+        if isinstance(st, ast.Assign):
+            for t in st.targets:
+                names = []
+                _targets(t, names)
+                for x in names:
+                    out[x] = "strong"
+        elif isinstance(st, ast.AnnAssign) and st.value is not None:
+            names = []
+            _targets(st.target, names)
+            for x in names:
+                out[x] = "strong"
+        elif isinstance(st, ast.AugAssign) and isinstance(st.target, ast.Name):
+            out[st.target.id] = "weak"
+        elif isinstance(st, (ast.Import, ast.ImportFrom)):
+            for a in st.names:
+                out[(a.asname or a.name).split(".")[0]] = "strong"
+        elif isinstance(st, (ast.FunctionDef, ast.ClassDef)):
+            out[st.name] = "strong"
+        for sub in ast.walk(st):
+            if isinstance(sub, ast.NamedExpr) and isinstance(sub.target, ast.Name):
+                out[sub.target.id] = "weak"
+    elif kind == "for":
+        names = []
+        _targets(st.target, names)
+        for x in names:
+            out[x] = "strong"
+    elif kind == "with":
+        for it in st.items:
+            if it.optional_vars is not None:
+                names = []
+                _targets(it.optional_vars, names)
+                for x in names:
+                    out[x] = "strong"
+    elif kind == "handler" and getattr(st, "name", None):
+        out[st.name] = "strong"
+    return out
+
+
+def reaching_defs(cfg):
+    """classic forward may-analysis: for every node the set of (name, defining node) pairs that may reach its entry;
+    the pseudo node cfg.entry defines every parameter"""
+    gen = {}
+    kill_names = {}
+    for n in cfg.g.nodes:
+        d = node_defs(cfg, n) if n not in (cfg.entry, cfg.exit, cfg.raise_exit) else {}
+        gen[n] = {(x, n) for x in d}
+        kill_names[n] = {x for x, k in d.items() if k == "strong"}
+    a = cfg.func.args
+    params = [x.arg for x in a.posonlyargs + a.args + a.kwonlyargs] + ([a.vararg.arg] if a.vararg else []) + ([a.kwarg.arg] if a.kwarg else [])
+    gen[cfg.entry] = {(p, cfg.entry) for p in params}
+    IN = {n: set() for n in cfg.g.nodes}
+    OUT = {n: set(gen[n]) for n in cfg.g.nodes}
+    work = list(cfg.g.nodes)
+    while work:
+        n = work.pop()
+        new_in = set()
+        for p in cfg.g.predecessors(n):
+            new_in |= OUT[p]
+        IN[n] = new_in
+        new_out = {(x, d) for (x, d) in new_in if x not in kill_names[n]} | gen[n]
+        if new_out != OUT[n]:
+            OUT[n] = new_out
+            work.extend(cfg.g.successors(n))
+    return IN
